@@ -69,9 +69,9 @@ def run_shard(inobin, fam, seed, n, steps, tag):
     return dict(fam=fam, seed=seed, hist=hist, scripts=scripts, harness_rc=rc, harness_out=out[-2000:], driver_rc=rc2, driver_out=out2)
 
 
-def run_script_file(inobin, script_path, tag):
+def run_script_file(inobin, script_path, tag, stall_confirmed=False):
     hist = os.path.join(WD, "h-%s.txt" % tag)
-    rc, out = sh("%s -script %s -out %s" % (inobin, script_path, hist), timeout=300, cwd=WD)
+    rc, out = sh("%s%s -script %s -out %s" % ("VERIF_STALL_CONFIRMED=1 " if stall_confirmed else "", inobin, script_path, hist), timeout=300, cwd=WD)
     rc2, out2 = sh("./inodriver %s" % hist, cwd=WD, timeout=300)
     return dict(fam="script", seed=0, hist=hist, scripts=script_path, harness_rc=rc, harness_out=out[-2000:], driver_rc=rc2, driver_out=out2)
 
@@ -116,7 +116,7 @@ def write_script(path, header, steps):
 def kind_present(inobin, header, steps, kind, tag):
     p = os.path.join(WD, "min-%s.script" % tag)
     write_script(p, header, steps)
-    r = run_script_file(inobin, p, "min-" + tag)
+    r = run_script_file(inobin, p, "min-" + tag, stall_confirmed=True)
     lines, _, kh = parse_driver(r["driver_out"])
     if r["harness_rc"] != 0:
         return kind.startswith("MISMATCH crash"), lines
